@@ -106,7 +106,7 @@ UNIT = {
                       ("X14", r"_marker: PhantomData<R>,", "_marker: PhantomData<&'a R>,", 1)]},
         {"kind": "impl", "file": I, "impl": r"^impl<'a, R: RealNumberInternalTrait> Interpreter<'a, R>$",
          "require_source": [],
-         "methods": {"get_library": {"props": ["C13"],
+         "methods": {"get_library": {"props": ["C13", "C07"],
              "sig_rewrites": [("S1", r"-> Result<Library<R>>$", "-> (r: Result<Library<R>>)")],
              "rewrites": [
                  # X15: `name.deref()` / `&name` where `&LibraryName` is expected is `&name.data` (impl Deref for Located, checked)
